@@ -1,4 +1,83 @@
-From HP Require Import Base.Prelude Txn.Txn.
-Example C18_smoke : usable MemTxn (fst (trun MemTxn (t_begin []) [TAbort; TCommit])) = true.
-Proof. vm_compute. reflexivity. Qed.
-Print Assumptions C18_smoke.
+(* C18 -- Transactions: one result per call, in order; the store is always released.
+   [trun which (t_begin s0) cs] runs the call sequence [cs] on the transaction implementation
+   [which] (MemTxn = mem/store.go's transaction, SerialTxn = keyvalue's unsafeSerialTransaction)
+   started on a store holding [s0]; both are tied to /repo by the per-run correspondence check. *)
+From HP Require Import Base.Prelude Txn.Txn Txn.TxnProofs.
+Open Scope nat_scope.
+
+(* Commit returns exactly one result per Get/Set call issued before it, in call order, the i-th
+   carrying operation id i -- for every call sequence (handlers that fail or abort included),
+   both implementations. *)
+Theorem C18_results_indexed : forall which s0 cs l,
+  snd (fst (tstep which (fst (trun which (t_begin s0) cs)) TCommit)) = CResults l ->
+  length l = count_ops cs /\ forall i r, nth_error l i = Some r -> o_id r = i.
+Proof. exact results_indexed. Qed.
+Print Assumptions C18_results_indexed.
+
+(* ... and every call returned the id under which its result is filed. *)
+Theorem C18_call_returns_its_result_index : forall which s0 cs c,
+  let t := fst (trun which (t_begin s0) cs) in
+  snd (tstep which t c) = if is_op c then Some (length (t_results t)) else None.
+Proof.
+  intros which s0 cs c t. apply tstep_id. apply trun_inv.
+  split; [reflexivity|]. intros i r Hr. destruct i; discriminate.
+Qed.
+Print Assumptions C18_call_returns_its_result_index.
+
+(* A live Get reports what the store holds ... *)
+Theorem C18_get_sees_store : forall which t k h, t_done t = false ->
+  exists r, nth_error (t_results (fst (fst (tstep which t (TGet k h))))) (length (t_results t)) = Some r
+            /\ o_val r = tget (t_store t) k.
+Proof. exact get_sees_store. Qed.
+Print Assumptions C18_get_sees_store.
+
+(* ... in particular the value of the latest Set of that key, and no other key is disturbed. *)
+Theorem C18_get_reflects_earlier_set : forall which t k v h h', t_done t = false -> handler_aborts h = false ->
+  let t1 := fst (fst (tstep which t (TSet k v h))) in
+  tget (t_store t1) k = v /\ (forall k', k <> k' -> tget (t_store t1) k' = tget (t_store t) k')
+  /\ exists r, nth_error (t_results (fst (fst (tstep which t1 (TGet k h'))))) (length (t_results t1)) = Some r
+               /\ o_val r = v.
+Proof. exact set_then_get. Qed.
+Print Assumptions C18_get_reflects_earlier_set.
+
+Theorem C18_handler_error_becomes_the_operations_error : forall which t k v h, t_done t = false -> handler_err h = true ->
+  exists r, nth_error (t_results (fst (fst (tstep which t (TSet k v h))))) (length (t_results t)) = Some r
+            /\ o_err r = RHandler.
+Proof. exact handler_error_recorded. Qed.
+Print Assumptions C18_handler_error_becomes_the_operations_error.
+
+(* Calls made after Abort (or after a handler aborted, or after Commit) never change the store. *)
+Theorem C18_after_abort_no_effect : forall which t cs,
+  t_done t = true -> t_store (fst (trun which t cs)) = t_store t.
+Proof. exact after_abort_no_effect_run. Qed.
+Print Assumptions C18_after_abort_no_effect.
+
+(* However a transaction of the in-memory store ends, and whatever is called afterwards, the store's
+   mutex is unlocked exactly once: no fatal double unlock, and the store is free for the next one. *)
+Theorem C18_mem_store_released : forall s0 cs,
+  existsb ends cs = true -> usable MemTxn (fst (trun MemTxn (t_begin s0) cs)) = true.
+Proof. exact mem_store_released. Qed.
+Print Assumptions C18_mem_store_released.
+
+Theorem C18_serial_store_usable : forall s0 cs, usable SerialTxn (fst (trun SerialTxn (t_begin s0) cs)) = true.
+Proof. exact serial_store_usable. Qed.
+Print Assumptions C18_serial_store_usable.
+
+(* Isolation: as long as a transaction of the in-memory store has not ended it holds the store's
+   mutex, so no other transaction can begin (Transaction() blocks on it) and see partial effects. *)
+Theorem C18_live_transaction_holds_the_store : forall s0 cs,
+  let t := fst (trun MemTxn (t_begin s0) cs) in
+  t_crashed t = false /\ (t_released t = false -> t_locked t = true).
+Proof.
+  intros s0 cs t. destruct (trun_rinv (t_begin s0) cs (rinv_begin s0)) as (C & L & _). split; assumption.
+Qed.
+Print Assumptions C18_live_transaction_holds_the_store.
+
+(* Non-vacuity: Abort followed by Commit (the pattern of a handler-triggered abort) on a store with data. *)
+Example C18_nonvacuous :
+  let cs := [TSet 1 (Some 7) HOk; TGet 1 HAbort; TSet 2 (Some 9) HOk; TAbort; TCommit]%N in
+  existsb ends cs = true
+  /\ usable MemTxn (fst (trun MemTxn (t_begin [(1, 5)]%N) cs)) = true
+  /\ tget (t_store (fst (trun MemTxn (t_begin [(1, 5)]%N) cs))) 2%N = None.
+Proof. vm_compute. auto. Qed.
+Print Assumptions C18_nonvacuous.
